@@ -13,7 +13,7 @@ import (
 func init() { register("C17", propC17) }
 
 func propC17(r *Report, tier string) {
-	r.Explanation = "Structural necessary conditions of 'queries and requests keep their meaning across JSON': (a) K10 dispatch simulation of ParseQuery: the ordered (key-presence / JSON-kind formula -> type) table is extracted from the source; for every concrete query type the keys it emits (custom MarshalJSON struct/map or its tags, with omitempty and JSON kinds) are enumerated over all presence/kind vectors and the first true branch must construct that same type whenever one of its own discriminating keys is present (finite, exhaustive); (b) K9c every key a query type's MarshalJSON writes is read back by its decoder (own tags or the aux struct of its UnmarshalJSON); (c) K9a/b SearchRequest.UnmarshalJSON carries every serialised request field; (d) K13 the type switches that must see through compound queries (ExtractFields, expandQuery) cover every compound query type; (e) K9b the pooled query-string lexer is fully reset when taken from its pool; (f) K9c a MarshalJSON short-cut (compact form) takes every field into account that the full form encodes."
+	r.Explanation = "Structural necessary conditions of 'queries and requests keep their meaning across JSON': (a) K10 dispatch simulation of ParseQuery: the ordered (key-presence / JSON-kind formula -> type) table is extracted from the source; for every concrete query type the keys it emits (custom MarshalJSON struct/map or its tags, with omitempty and JSON kinds) are enumerated over all presence/kind vectors and the first true branch must construct that same type whenever one of its own discriminating keys is present (finite, exhaustive); (b) K9c every key a query type's MarshalJSON writes is read back by its decoder (own tags or the aux struct of its UnmarshalJSON); (c) K9a/b SearchRequest.UnmarshalJSON carries every serialised request field; (d) K13 the type switches that must see through compound queries (ExtractFields, expandQuery) cover every compound query type; (e) K9b the pooled query-string lexer is fully reset when taken from its pool; (f) K9c a MarshalJSON short-cut (compact form) takes every field into account that the full form encodes; (g) K11 every state function of the query-string lexer that hands a token to the parser clears all per-token scratch fields before returning. (h) K11 a constant time layout used in a MarshalJSON of the request/query types keeps sub-second digits."
 	r.NotCovered = "query-string grammar equivalence and never-panics for arbitrary input (goyacc tables + hand lexer need input-space reasoning); result equality of the re-parsed query"
 	ruleParseQueryDispatch(r, "K10-dispatch")
 	ruleQueryMarshalKeysRead(r, "K9c-marshal-keys-read")
@@ -25,6 +25,8 @@ func propC17(r *Report, tier string) {
 	ruleCompactFormComplete(r, "K9c-compact-form-complete", "search", "search/query", "mapping", "bleve")
 	ruleOmitemptyNeedsEmptyDefault(r, "K9-omitempty-default-empty")
 	ruleZeroTimeIsOpenEnd(r, "K9-zero-time-is-open-end")
+	ruleLexerEmitClearsTokenState(r, "K11-lexer-emit-clears-token-state")
+	ruleMarshalledTimesKeepSubSeconds(r, "K11-marshalled-times-keep-subseconds")
 	r.Floor("K10-dispatch", 25)
 	r.Floor("K9c-marshal-keys-read", 8)
 	r.Floor("K9a-search-request", 10)
@@ -247,6 +249,34 @@ func extractDispatch(fi *FuncInfo) (map[types.Object]dispAtom, []dispBranch) {
 			}
 			return true
 		})
+		if len(decl) == 0 {
+			// `return decodeAs[T](input)`: a generic decoder instantiated with the concrete query type
+			ast.Inspect(body, func(n ast.Node) bool {
+				rs, isRet := n.(*ast.ReturnStmt)
+				if !isRet || len(rs.Results) != 1 {
+					return true
+				}
+				c, isCall := rs.Results[0].(*ast.CallExpr)
+				if !isCall {
+					return true
+				}
+				var targs []ast.Expr
+				switch f := ast.Unparen(c.Fun).(type) {
+				case *ast.IndexExpr:
+					targs = []ast.Expr{f.Index}
+				case *ast.IndexListExpr:
+					targs = f.Indices
+				}
+				for _, ta := range targs {
+					if tv, ok := info.Types[ta]; ok && tv.IsType() {
+						if nt := namedOf(tv.Type); nt != nil {
+							decl = append(decl, nt.Obj().Name())
+						}
+					}
+				}
+				return true
+			})
+		}
 		if len(decl) > 0 {
 			b.Target = decl[0]
 			if len(decl) > 1 {
@@ -643,7 +673,20 @@ func ruleSearchRequestDecoder(r *Report, rule string) {
 	var tempObj types.Object
 	ast.Inspect(fi.Decl.Body, func(n ast.Node) bool {
 		if vs, ok := n.(*ast.ValueSpec); ok && temp == nil {
-			if t, ok := info.TypeOf(vs.Type).(*types.Struct); ok && len(vs.Names) == 1 {
+			tagged := func(t *types.Struct) bool {
+				k := 0
+				for _, f := range jsonFieldsOf(t) {
+					if f.Tagged {
+						k++
+					}
+				}
+				return k >= 3
+			}
+			if vs.Type == nil || info.TypeOf(vs.Type) == nil {
+				return true
+			}
+			// the wire form: an anonymous struct, or a named struct type that exists for this purpose
+			if t, ok := info.TypeOf(vs.Type).Underlying().(*types.Struct); ok && len(vs.Names) == 1 && tagged(t) {
 				temp = t
 				tempObj = info.ObjectOf(vs.Names[0])
 			}
@@ -937,4 +980,225 @@ var queryOptionAllow = map[string]string{
 	"DisjunctionQuery.BoostVal": "same as BooleanQuery",
 	"MatchNoneQuery.BoostVal":   "a query that matches nothing has nothing to boost",
 	"QueryStringQuery.BoostVal": "the parsed query string produces a boolean query (see BooleanQuery)",
+}
+
+// ruleLexerEmitClearsTokenState (K11): the hand-written query-string lexer is a
+// state machine whose state functions accumulate one token in scratch fields of
+// the lexer (the text so far, "inside an escape", "a dot was seen").  A state
+// function that hands a token to the parser (assigns the *yySymType field) must
+// clear every such scratch field before it returns: the next token starts in
+// startState, which does not clear them, so a flag left over from the previous
+// token changes how the next one is classified (a second decimal number lexed
+// as a string).  The scratch fields are derived, not listed: the fields of the
+// lexer that the state functions both write and read.
+func ruleLexerEmitClearsTokenState(r *Report, rule string) {
+	p := r.P
+	_, st := structOf(p, queryPkg, "queryStringLex")
+	if st == nil {
+		undecidedf("queryStringLex not found")
+	}
+	var states []*FuncInfo
+	for _, fi := range p.flist {
+		if fi.Decl == nil || fi.Decl.Body == nil || fi.Decl.Recv != nil || !strings.HasSuffix(fi.Pkg.PkgPath, queryPkg) {
+			continue
+		}
+		sig, ok := fi.Obj.Type().(*types.Signature)
+		if !ok || sig.Params().Len() != 3 || sig.Results().Len() != 2 {
+			continue
+		}
+		if nt := namedOf(sig.Params().At(0).Type()); nt == nil || nt.Obj().Name() != "queryStringLex" {
+			continue
+		}
+		if nt := namedOf(sig.Results().At(0).Type()); nt == nil {
+			continue
+		} else if _, isFn := nt.Underlying().(*types.Signature); !isFn {
+			continue
+		}
+		states = append(states, fi)
+	}
+	if len(states) < 5 {
+		undecidedf("lexer state functions not recognised (%d)", len(states))
+	}
+	written, read := map[string]bool{}, map[string]bool{}
+	tokenField := ""
+	for i := 0; i < st.NumFields(); i++ {
+		if pt, ok := st.Field(i).Type().(*types.Pointer); ok {
+			if nt := namedOf(pt.Elem()); nt != nil && nt.Obj().Name() == "yySymType" {
+				tokenField = st.Field(i).Name()
+			}
+		}
+	}
+	if tokenField == "" {
+		undecidedf("the lexer's pending-token field (*yySymType) not found")
+	}
+	for _, fi := range states {
+		info := fi.Pkg.TypesInfo
+		lhs := map[ast.Expr]bool{}
+		ast.Inspect(fi.Decl.Body, func(n ast.Node) bool {
+			if as, ok := n.(*ast.AssignStmt); ok {
+				for _, l := range as.Lhs {
+					if fs, ok := asFieldSel(info, l); ok && fs.Owner == "queryStringLex" {
+						written[canonFieldName(fs.Field)] = true
+						if as.Tok == token.ASSIGN || as.Tok == token.DEFINE {
+							lhs[ast.Unparen(l)] = true
+						} else {
+							read[canonFieldName(fs.Field)] = true // `+=` reads
+						}
+					}
+				}
+			}
+			return true
+		})
+		ast.Inspect(fi.Decl.Body, func(n ast.Node) bool {
+			if e, ok := n.(ast.Expr); ok && !lhs[e] {
+				if fs, ok := asFieldSel(info, e); ok && fs.Owner == "queryStringLex" {
+					read[canonFieldName(fs.Field)] = true
+				}
+			}
+			return true
+		})
+	}
+	var scratch []string
+	for i := 0; i < st.NumFields(); i++ {
+		f := canonFieldName(st.Field(i))
+		if written[f] && read[f] && f != tokenField {
+			scratch = append(scratch, f)
+		}
+	}
+	if len(scratch) < 2 {
+		undecidedf("lexer scratch fields not recognised (%v)", scratch)
+	}
+	isZero := func(info *types.Info, e ast.Expr) bool {
+		tv, ok := info.Types[e]
+		if !ok || tv.Value == nil {
+			return false
+		}
+		switch tv.Value.Kind() {
+		case constant.Bool:
+			return !constant.BoolVal(tv.Value)
+		case constant.String:
+			return constant.StringVal(tv.Value) == ""
+		case constant.Int:
+			v, exact := constant.Int64Val(tv.Value)
+			return exact && v == 0
+		}
+		return false
+	}
+	// fields a method of the lexer clears unconditionally (top-level statements of its body)
+	clearedBy := func(f *types.Func) map[string]bool {
+		out := map[string]bool{}
+		mfi := p.Func(funcName(f))
+		if mfi == nil || mfi.Decl == nil || mfi.Decl.Body == nil {
+			return out
+		}
+		minfo := mfi.Pkg.TypesInfo
+		for _, s := range mfi.Decl.Body.List {
+			if as, ok := s.(*ast.AssignStmt); ok && as.Tok == token.ASSIGN && len(as.Lhs) == len(as.Rhs) {
+				for k, l := range as.Lhs {
+					if fs, ok := asFieldSel(minfo, l); ok && fs.Owner == "queryStringLex" && isZero(minfo, as.Rhs[k]) {
+						out[canonFieldName(fs.Field)] = true
+					}
+				}
+			}
+		}
+		return out
+	}
+	n := 0
+	for _, fi := range states {
+		info := fi.Pkg.TypesInfo
+		var emits []ast.Stmt
+		clears := map[string][]ast.Node{}
+		ast.Inspect(fi.Decl.Body, func(x ast.Node) bool {
+			switch y := x.(type) {
+			case *ast.AssignStmt:
+				if len(y.Lhs) != len(y.Rhs) {
+					return true
+				}
+				for k, l := range y.Lhs {
+					fs, ok := asFieldSel(info, l)
+					if !ok || fs.Owner != "queryStringLex" {
+						continue
+					}
+					fn := canonFieldName(fs.Field)
+					if fn == tokenField {
+						if tv, has := info.Types[y.Rhs[k]]; !has || !tv.IsNil() {
+							emits = append(emits, y)
+						}
+					} else if y.Tok == token.ASSIGN && isZero(info, y.Rhs[k]) {
+						clears[fn] = append(clears[fn], y)
+					}
+				}
+			case *ast.ExprStmt:
+				if c, ok := y.X.(*ast.CallExpr); ok {
+					if f := callee(info, c); f != nil {
+						if sig, _ := f.Type().(*types.Signature); sig != nil && sig.Recv() != nil {
+							if nt := namedOf(sig.Recv().Type()); nt != nil && nt.Obj().Name() == "queryStringLex" {
+								for fld := range clearedBy(f) {
+									clears[fld] = append(clears[fld], y)
+								}
+							}
+						}
+					}
+				}
+			}
+			return true
+		})
+		if len(emits) == 0 {
+			continue
+		}
+		r.Fn(fi)
+		g := buildCFG(info, fi.Decl.Body)
+		for i, e := range emits {
+			for _, fld := range scratch {
+				n++
+				ok := !g.exitAvoidingAll(e, clears[fld])
+				r.Ob(rule, fmt.Sprintf("%s/emit#%d/clears-%s", fi.Name, i, fld), e.Pos(), ok, "a token is handed to the parser here; on some path to the return the lexer's per-token scratch field "+fld+" is not cleared, so it leaks into the classification of the next token")
+			}
+		}
+	}
+	if n < 12 {
+		undecidedf("lexer emission sites not recognised (%d obligations)", n)
+	}
+}
+
+// ruleMarshalledTimesKeepSubSeconds (K11): a time that a MarshalJSON of the
+// request/query types prints with a constant layout has to survive the parse
+// on the other side.  time.Time values carry nanoseconds (anything derived from
+// time.Now() does); a constant layout without fractional seconds (RFC3339,
+// DateTime, ...) truncates them, so the parsed-back request puts a document
+// whose date falls inside the dropped fraction into another bucket.  Layouts
+// held in a variable (the documented, configurable QueryDateTimeFormat) are
+// the user's choice and not judged.
+func ruleMarshalledTimesKeepSubSeconds(r *Report, rule string) {
+	p := r.P
+	n, fns := 0, 0
+	for _, fi := range p.flist {
+		rel := relPkg(fi.Pkg.PkgPath)
+		if fi.Decl == nil || fi.Decl.Body == nil || fi.Decl.Name.Name != "MarshalJSON" || !(rel == "bleve" || rel == "search" || rel == "search/query") {
+			continue
+		}
+		fns++
+		info := fi.Pkg.TypesInfo
+		for _, c := range callsIn(fi.Decl.Body) {
+			f := callee(info, c)
+			if f == nil || qname(f) != "time.(Time).Format" || len(c.Args) != 1 {
+				continue
+			}
+			tv, ok := info.Types[c.Args[0]]
+			if !ok || tv.Value == nil || tv.Value.Kind() != constant.String {
+				continue
+			}
+			layout := constant.StringVal(tv.Value)
+			n++
+			r.Fn(fi)
+			keeps := strings.Contains(layout, ".000000000") || strings.Contains(layout, ".999999999") || strings.Contains(layout, ",000000000") || strings.Contains(layout, ",999999999")
+			r.Ob(rule, fmt.Sprintf("%s/layout#%d-keeps-nanoseconds", fi.Name, n), c.Pos(), keeps, "a time is serialised with the constant layout \""+layout+"\", which drops the fraction of a second: the parsed-back value differs from the original for any instant that is not on a whole second")
+		}
+	}
+	if fns < 10 {
+		undecidedf("MarshalJSON methods of the request/query types not found (%d)", fns)
+	}
+	if n == 0 {
+		r.InfoOb(rule, "no-constant-layout-in-MarshalJSON", 0, fmt.Sprintf("no MarshalJSON of the request/query types formats a time with a constant layout (%d methods checked; times are encoded by encoding/json, i.e. RFC3339Nano, or with the configurable query layout)", fns))
+	}
 }
